@@ -30,6 +30,7 @@ type Task struct {
 	obj     int
 	done    bool
 	yielded bool // last op was spin-like: others are preferred at zero cost
+	urgent  bool // once enabled it is the default choice, even before the running task
 	exited  chan struct{}
 	stack   string
 }
@@ -98,6 +99,8 @@ type Sched struct {
 	nextObj  int
 	timerAlt bool
 	finished bool
+	armSpan  int
+	armStep  int // step at which the last urgent task was armed (-1 = none)
 	fp       func() uint64
 }
 
@@ -154,7 +157,7 @@ func SetFingerprint(f func() uint64) {
 
 // Run executes main under a fresh scheduler and returns when the execution is over.
 func Run(opts Options, main func()) Result {
-	s := &Sched{opts: opts, doneGate: newGate()}
+	s := &Sched{opts: opts, doneGate: newGate(), armStep: -1}
 	if s.opts.MaxSteps == 0 {
 		s.opts.MaxSteps = 400000
 	}
@@ -185,6 +188,9 @@ func Run(opts Options, main func()) Result {
 	}
 	s.res.Points = s.points
 	s.res.Steps = s.steps
+	if s.armStep >= 0 {
+		LastArmSpan = s.armSpan
+	}
 	s.res.End = s.now
 	TotalSteps += int64(s.steps)
 	S = nil
@@ -287,6 +293,37 @@ func (s *Sched) finish() {
 	s.doneGate.wake()
 }
 
+// LastArmSpan is the number of scheduler steps the last execution ran after arming its urgent task
+// until the harness main task went on to its final phase (see MarkSpanEnd).
+var LastArmSpan int
+
+// GoUrgentAt spawns a task that becomes enabled k scheduler steps from now and is then the default
+// choice at the next scheduling point, ahead of the running task: the harness uses it to inject an
+// environment event (a termination cause) at an exact position of the execution.
+func GoUrgentAt(k int, name string, f func()) {
+	s := S
+	if s == nil || s.abort {
+		return
+	}
+	t := s.newTask(name)
+	t.urgent = true
+	at := s.steps + k
+	s.armStep = s.steps
+	s.armSpan = 0
+	t.guard = func() bool { return stepsReached(s, at) }
+	t.op = "armed"
+	go taskMain(s, t, f)
+}
+
+func stepsReached(s *Sched, at int) bool { return s.steps >= at }
+
+// MarkSpanEnd records how many steps have passed since the urgent task was armed.
+func MarkSpanEnd() {
+	if S != nil && S.armStep >= 0 && S.armSpan == 0 {
+		S.armSpan = S.steps - S.armStep
+	}
+}
+
 // exitNow ends the calling task during the abort phase.
 func (s *Sched) exitNow(t *Task) {
 	if s.opts.WantStacks && t.stack == "" {
@@ -327,6 +364,15 @@ func Yield() {
 	}
 	S.cur.yielded = true
 	PointOp("yield", 0, nil)
+}
+
+// Preempt is a plain scheduling point (used inside harness callbacks to model arbitrary delays in
+// application code): the task stays enabled, so switching away from it counts as a preemption.
+func Preempt() {
+	if S == nil || S.abort {
+		return
+	}
+	PointOp("point", 0, nil)
 }
 
 // MarkYield makes the *next* point of the current task a yielding one.
@@ -375,10 +421,20 @@ func (s *Sched) schedule(me *Task) {
 		me.yielded = false
 		// canonical order: running task first (if enabled and not yielding), then ascending ids
 		var alts []*Task
+		for _, t := range en {
+			if t.urgent {
+				alts = append(alts, t)
+			}
+		}
+		nUrgent := len(alts)
 		if meEn && !preferOthers {
 			alts = append(alts, me)
 		}
-		alts = append(alts, en...)
+		for _, t := range en {
+			if !t.urgent {
+				alts = append(alts, t)
+			}
+		}
 		if meEn && preferOthers {
 			alts = append(alts, me)
 		}
@@ -409,7 +465,7 @@ func (s *Sched) schedule(me *Task) {
 		idx := 0
 		if n > 1 {
 			s.timerAlt = timerAlt
-			idx = s.choose(n, 's', meEn && !preferOthers)
+			idx = s.choose(n, 's', (meEn && !preferOthers) || nUrgent > 0)
 		}
 		if idx >= len(alts) {
 			s.fireNextTimer()
